@@ -1,6 +1,6 @@
 (* Model/ManifestPrim.v -- vocabulary for the manifest-level round trip of column bounds
    (file_manager.FileManager.create_manifest_file -> read_manifest_file), used by the regenerated
-   Gen/GenManifest.v.  Definitions only.
+   Gen/GenManifest13.v.  Definitions only.
 
    A DataFile carries two Optional[Dict[int, Any]] (lower_bounds / upper_bounds: field id -> bound).
    A manifest is an Avro file with one record per entry; the bounds travel in two map<string> fields
